@@ -8,14 +8,18 @@ import typing as t
 
 
 def sid_to_bytes(sid: str) -> bytes:
-    sid_pattern = re.compile(r"^S-(\d)-(\d+)(?:-\d+){1,15}$")
-    sid_match = sid_pattern.match(sid)
+    # Use explicit ASCII digits and fullmatch, \d also matches other Unicode
+    # digits and $ matches before a trailing newline.
+    sid_pattern = re.compile(r"S-([0-9])-([0-9]+)(?:-[0-9]+){1,15}")
+    sid_match = sid_pattern.fullmatch(sid)
     if not sid_match:
         raise ValueError(f"Input string '{sid}' is not a valid SID string")
 
     sid_split = sid.split("-")
     revision = int(sid_split[1])
     authority = int(sid_split[2])
+    if authority > 0xFFFFFFFFFFFF:
+        raise ValueError(f"Input string '{sid}' is not a valid SID string, identifier authority exceeds 48 bits")
 
     data = bytearray(authority.to_bytes(8, byteorder="big"))
     data[0] = revision
@@ -23,6 +27,9 @@ def sid_to_bytes(sid: str) -> bytes:
 
     for idx in range(3, len(sid_split)):
         sub_auth = int(sid_split[idx])
+        if sub_auth > 0xFFFFFFFF:
+            raise ValueError(f"Input string '{sid}' is not a valid SID string, sub authority exceeds 32 bits")
+
         data += sub_auth.to_bytes(4, byteorder="little")
 
     return bytes(data)
